@@ -94,6 +94,39 @@ class Lemma:
         self.functions = set()
         self.exit_labels = {}
         self.glue_may_defeat = False      # the construct under test is itself a defeat primitive (!is_defeat, !truth_is_defeat)
+        self.ap_at_function_entry = regs['ap']; self.ap_at_loop_restore = regs['ap']
+        self.func_defeat_value = regs['defeat']; self.loop_defeat_value = regs['defeat']
+        self.expected_ap_delta = None
+        self.prior_arrays = []
+        for i in range(n_prior_arrays):
+            self.add_prior_array(i)
+        if n_prior_arrays:
+            self.ap_at_function_entry = self.prior_arrays[0]['origin_value']
+
+    def add_prior_array(self, i, el_type=DataType.INT):
+        """an array allocated earlier in this activation (I-arrays): its (length, origin) slots live in the entry frame, the origin
+        slot holds the value ap had before the array was allocated; extents stack up below the current ap"""
+        cg = self.cg; w = self.w; E = self.entry
+        X = self.sym(f'XA{i}')          # offset of the origin slot; the length slot is the word above it
+        self.session.assume(X.z3() >= 3 * w); self.session.assume(X.z3() <= self.O.z3())
+        origin = asm.Indirect(asm.Section.STATE, asm.State(cg.fp), asm.IntLiteral(-X))
+        length = asm.Indirect(asm.Section.STATE, asm.State(cg.fp), asm.IntLiteral(-(X - w)))
+        ref = ArrayRef(ConcreteArrayType(el_type, AccessMode.RW), origin=origin, length=length)
+        cg.allocated_arrays.append(ref)
+        fp = E.regs['fp']
+        def word(a):
+            v = None
+            for k in range(w):
+                b = z3.Select(E.mem, a + k); self.ctx.facts += [b >= 0, b <= 255]
+                v = b if v is None else v + (1 << (8 * k)) * b
+            return v
+        ov = word(fp - X.z3())
+        prev_top = self.prior_arrays[-1]['origin_value'] if self.prior_arrays else None
+        # stack discipline: 5w <= origin_0 <= origin_1 <= ... <= ap
+        self.ctx.pre += [5 * w <= ov, ov <= E.regs['ap']]
+        if prev_top is not None:
+            self.ctx.pre.append(prev_top <= ov)
+        self.prior_arrays.append({'ref': ref, 'origin_value': ov, 'offset': X})
 
     def close(self):
         self.session.__exit__(None, None, None)
@@ -191,9 +224,15 @@ class Lemma:
             v = c.fresh('v_' + node.name)
             if node.type == DataType.BOOL: extra.append(v <= 1)
             elif node.type == DataType.BYTE: extra.append(v <= 255)
-            st2.regs[info.r_out] = v
         ev = ChildEvent(info, v, pre, fresh_mem, lo, None, c)
         st2.mem = ev.havoc(st.mem)
+        if info.kind == 'expr':
+            if info.r_out in st2.regs:
+                st2.regs[info.r_out] = v
+            else:
+                # r_out is the label of a global word (assignment evaluates straight into the variable): the child's last
+                # action is the store of its value there
+                engine.store(st2, cond, c.label(info.r_out), self.w, v, f'child {node!r} result into [{info.r_out}]')
         st2.trace = st.trace + (('child', info, ev),)
         def abnormal(kind):
             e2 = ChildEvent(info, None, pre, fresh_mem, lo, kind, c)
@@ -575,8 +614,101 @@ class Lemma:
             if l.tag is not None: continue
             if l.kind == 'exit' and l.tgt == '<end>' and ExitMode.NONE not in modes: bad.append('falls through although NONE is not an exit mode')
             if l.kind == 'exit' and l.tgt == self.exit_labels.get('break') and ExitMode.BREAK not in modes: bad.append('break although BREAK is not an exit mode')
-            if l.kind in ('child-return',) and ExitMode.RETURN not in modes: bad.append('returns although RETURN is not an exit mode')
-            if l.kind in ('bot',) and ExitMode.DEFEAT not in modes: bad.append('defeat although DEFEAT is not an exit mode')
-            if l.kind == 'term' and l.tgt == 'child' and ExitMode.LOOP not in modes: bad.append('terminal state although LOOP is not an exit mode')
-        self.add(clause, FAILED if bad else DISCHARGED, t0, props, {'formula': f'leaf kinds of the emitted code are within exit_modes() = {modes!r}',
+        self.add(clause, FAILED if bad else DISCHARGED, t0, props, {'formula': f'fall-through / break leaves of the emitted code are within exit_modes() = {modes!r}',
                                                                     'message': '; '.join(sorted(set(bad)))})
+
+    # ---- statements -----------------------------------------------------------------------------------------------------------
+    def function_context(self, ret_type=DataType.INT, in_try=False):
+        """the statement under test sits in a function body: RA slot at [fp-w, fp); `return` leaves through it"""
+        cg = self.cg
+        cg.return_address = asm.Indirect(asm.Section.STATE, asm.State(cg.fp), asm.IntLiteral(-self.w))
+        # call protocol: the RA word holds the caller's end_call label (or all_is_win for the entry point), never `halt`
+        ra = None
+        for k in range(self.w):
+            b = z3.Select(self.entry.mem, self.entry.regs['fp'] - self.w + k); self.ctx.facts += [b >= 0, b <= 255]
+            ra = b if ra is None else ra + (1 << (8 * k)) * b
+        self.ctx.pre.append(ra != self.ctx.label('halt'))
+        self.RA = ra
+        if in_try:
+            # inside a try/stop body of a you-function: effective defeat is the variable, func_defeat is halt
+            cg.func_defeat = stdlib.halt
+            cg.effective_defeat = asm.State(cg.defeat)
+            cg.needs_variable_defeat = True
+            self.func_defeat_value = self.ctx.label('halt')
+
+    def ra_value(self, S):
+        return S.load(self.entry.mem, self.entry.regs['fp'] - self.w, self.w)
+
+    def array_base_ap(self, S, idx):
+        """I-arrays: the origin slot of allocated array number idx holds the value ap had before it was allocated"""
+        ref = self.cg_arrays_at_entry[idx]
+        return self.prior_arrays[idx]['origin_value']
+
+    def check_stmts(self, stmts, P, want_cover=(('exit', '<end>'),), expect_exit=None):
+        cg = self.cg
+        self.cg_arrays_at_entry = list(cg.allocated_arrays)
+        out = self.guarded_emit(lambda: cg.gen_stmts(stmts), P.get('NOERR', ('C10',)))
+        if out is None:
+            return self.results
+        instrs, lines, (exited, var_bubble) = out
+        self.lines = lines
+        t0 = time.time(); book = []
+        if not (var_bubble.prev == self.entry_stack): book.append('var_bubble.prev is not the entry stack')
+        if not exited and not (cg.stack == var_bubble.cur): book.append('self.stack is not var_bubble.cur')
+        self.add('BOOK', FAILED if book else DISCHARGED, t0, P['SIM'], {'message': '; '.join(book), 'formula': 'bubble bookkeeping of gen_stmts',
+                 'replay': {'reproduced': True, 'how': 'observed on the value returned by the real method'}}, backend='harness')
+        # pop the declared variables' bubble the way the enclosing CodeBlock would, so that the Tracker sees the whole construct
+        self.finalize_headroom()
+        eng, leaves = self.run_engine(lines)
+        self.last_leaves = leaves
+        extra_safety = []
+        E = self.entry.regs
+
+        def program(S):
+            for s in stmts:
+                S.exec_stmt(s)
+
+        def compare(S, leaf, o):
+            r = leaf.st.regs
+            if o.kind == 'normal':
+                # declared variables: their accessors read back the values the source semantics bound
+                for name, val in S.newvars.items():
+                    acc = cg.local_vars.get(name)
+                    if acc is None or isinstance(acc, ArrayRef):
+                        continue
+                    v, saf = self.read_accessor(acc, leaf); extra_safety.extend(saf)
+                    S.require_eq(v, val, f'value of declared variable {name}')
+                S.sync(leaf.st, 'at exit')
+            elif o.kind == 'return':
+                S.require_eq(leaf.tgt, self.ra_value(S), 'return target is the RA word of this activation')
+                if o.value is not None:
+                    t = [s for s in stmts if isinstance(s, ast.ReturnStatement)][0].value.type
+                    size = self.size_of(t)
+                    got = S.load(leaf.st.mem, E['fp'] - size, size)
+                    S.require_eq(got, o.value, 'return value in callee slot 0')
+                S.require(r['fp'] == E['fp'], 'fp changed at return')
+                S.require(r['ap'] == self.ap_at_function_entry, 'return does not release every array of the activation (ap != ap at function entry)')
+                S.require(r['defeat'] == self.func_defeat_value, 'defeat is not restored to the function\'s defeat at return')
+                S.require(r['try_fp'] == E['try_fp'], 'try_fp changed')
+                self.sync_ignoring_return_slot(S, leaf)
+            elif o.kind in ('break', 'continue'):
+                S.require(r['fp'] == E['fp'], f'fp changed at {o.kind}')
+                S.require(r['ap'] == self.ap_at_loop_restore, f'{o.kind} does not release exactly the arrays allocated since the loop\'s restore point')
+                S.require(r['defeat'] == self.loop_defeat_value, f'defeat is not restored to the loop\'s defeat at {o.kind}')
+                S.sync(leaf.st, f'at {o.kind}')
+        self.simulate(leaves, program, compare, P['SIM'])
+        self.inv_at_exit([l for l in leaves if l.kind == 'exit' and l.tgt == '<end>'], P['INV'], ap_delta=self.expected_ap_delta)
+        self.nobot(leaves, P['NOBOT'])
+        if not self.unchecked:
+            self.prove_all('SAFE', eng.safety + extra_safety, P['SAFE'])
+        else:
+            self.prove_all('CHILDPRE', [s for s in eng.safety if 'precondition' in s[1]], P['SIM'])
+        self.cover(leaves, list(want_cover), P['SIM'])
+        return self.results
+
+    def sync_ignoring_return_slot(self, S, leaf):
+        """at a return the value is written over the RA word (callee slot 0): that store is the protocol, not a side effect"""
+        fp = self.entry.regs['fp']
+        st = leaf.st.copy()
+        st.stores = tuple(s for s in st.stores if not smt.prove(S.pre(), z3.And(s[0] >= fp - self.w, s[0] + s[1] <= fp)).verdict == smt.PROVED)
+        S.sync(st, 'at return')
